@@ -70,7 +70,7 @@ def main():
         f.write("\n")
 
 
-HOOK_COMMITS = ["330c17b4f84287e7d10ceb5c4a7699342498ddf7", "7a1244b6228ded1b5cee3330b7b39f9777a9f168"]
+HOOK_COMMITS = ["330c17b4f84287e7d10ceb5c4a7699342498ddf7", "7a1244b6228ded1b5cee3330b7b39f9777a9f168", "b1af7bb9972c66ac479ab570977cdd8e93da48b0"]
 NA = {}
 
 if __name__ == "__main__":
